@@ -139,9 +139,9 @@ def mv_not(x1 : np.ndarray, out=None):
 
 def _mv_or(out, *ins):
     any_unknown = (ins[0] == UNKNOWN) | (ins[0] == UNASSIGNED)
-    for inp in ins[1:]: any_unknown |= (inp == UNKNOWN) | (inp == UNASSIGNED)
+    for inp in ins[1:]: any_unknown = any_unknown | ((inp == UNKNOWN) | (inp == UNASSIGNED))
     any_one = (ins[0] == ONE)
-    for inp in ins[1:]: any_one |= (inp == ONE)
+    for inp in ins[1:]: any_one = any_one | (inp == ONE)
 
     out[...] = ZERO
     np.putmask(out, any_one, ONE)
@@ -165,9 +165,9 @@ def mv_or(x1, x2, out=None):
 
 def _mv_and(out, *ins):
     any_unknown = (ins[0] == UNKNOWN) | (ins[0] == UNASSIGNED)
-    for inp in ins[1:]: any_unknown |= (inp == UNKNOWN) | (inp == UNASSIGNED)
+    for inp in ins[1:]: any_unknown = any_unknown | ((inp == UNKNOWN) | (inp == UNASSIGNED))
     any_zero = (ins[0] == ZERO)
-    for inp in ins[1:]: any_zero |= (inp == ZERO)
+    for inp in ins[1:]: any_zero = any_zero | (inp == ZERO)
 
     out[...] = ONE
     np.putmask(out, any_zero, ZERO)
@@ -192,7 +192,7 @@ def mv_and(x1, x2, out=None):
 
 def _mv_xor(out, *ins):
     any_unknown = (ins[0] == UNKNOWN) | (ins[0] == UNASSIGNED)
-    for inp in ins[1:]: any_unknown |= (inp == UNKNOWN) | (inp == UNASSIGNED)
+    for inp in ins[1:]: any_unknown = any_unknown | ((inp == UNKNOWN) | (inp == UNASSIGNED))
 
     out[...] = ZERO
     for inp in ins:
@@ -313,9 +313,9 @@ def bp8v_not(out, inp):
 def bp4v_or(out, *ins):
     out[...] = 0
     any_unknown = ins[0][..., 0, :] ^ ins[0][..., 1, :]
-    for inp in ins[1:]: any_unknown |= inp[..., 0, :] ^ inp[..., 1, :]
+    for inp in ins[1:]: any_unknown = any_unknown | (inp[..., 0, :] ^ inp[..., 1, :])
     any_one = ins[0][..., 0, :] & ins[0][..., 1, :]
-    for inp in ins[1:]: any_one |= inp[..., 0, :] & inp[..., 1, :]
+    for inp in ins[1:]: any_one = any_one | (inp[..., 0, :] & inp[..., 1, :])
     for inp in ins:
         out[..., 0, :] |= inp[..., 0, :] | any_unknown
         out[..., 1, :] |= inp[..., 1, :] & (~any_unknown | any_one)
@@ -325,9 +325,9 @@ def bp4v_or(out, *ins):
 def bp8v_or(out, *ins):
     out[...] = 0
     any_unknown = (ins[0][..., 0, :] ^ ins[0][..., 1, :]) & ~ins[0][..., 2, :]
-    for inp in ins[1:]: any_unknown |= (inp[..., 0, :] ^ inp[..., 1, :]) & ~inp[..., 2, :]
+    for inp in ins[1:]: any_unknown = any_unknown | ((inp[..., 0, :] ^ inp[..., 1, :]) & ~inp[..., 2, :])
     any_one = ins[0][..., 0, :] & ins[0][..., 1, :] & ~ins[0][..., 2, :]
-    for inp in ins[1:]: any_one |= inp[..., 0, :] & inp[..., 1, :] & ~inp[..., 2, :]
+    for inp in ins[1:]: any_one = any_one | (inp[..., 0, :] & inp[..., 1, :] & ~inp[..., 2, :])
     for inp in ins:
         out[..., 0, :] |= inp[..., 0, :] | any_unknown
         out[..., 1, :] |= inp[..., 1, :] & (~any_unknown | any_one)
@@ -338,9 +338,9 @@ def bp8v_or(out, *ins):
 def bp4v_and(out, *ins):
     out[...] = 0xff
     any_unknown = ins[0][..., 0, :] ^ ins[0][..., 1, :]
-    for inp in ins[1:]: any_unknown |= inp[..., 0, :] ^ inp[..., 1, :]
+    for inp in ins[1:]: any_unknown = any_unknown | (inp[..., 0, :] ^ inp[..., 1, :])
     any_zero = ~ins[0][..., 0, :] & ~ins[0][..., 1, :]
-    for inp in ins[1:]: any_zero |= ~inp[..., 0, :] & ~inp[..., 1, :]
+    for inp in ins[1:]: any_zero = any_zero | (~inp[..., 0, :] & ~inp[..., 1, :])
     for inp in ins:
         out[..., 0, :] &= inp[..., 0, :] | (any_unknown & ~any_zero)
         out[..., 1, :] &= inp[..., 1, :] & ~any_unknown
@@ -350,9 +350,9 @@ def bp4v_and(out, *ins):
 def bp8v_and(out, *ins):
     out[...] = 0xff
     any_unknown = (ins[0][..., 0, :] ^ ins[0][..., 1, :]) & ~ins[0][..., 2, :]
-    for inp in ins[1:]: any_unknown |= (inp[..., 0, :] ^ inp[..., 1, :]) & ~inp[..., 2, :]
+    for inp in ins[1:]: any_unknown = any_unknown | ((inp[..., 0, :] ^ inp[..., 1, :]) & ~inp[..., 2, :])
     any_zero = ~ins[0][..., 0, :] & ~ins[0][..., 1, :] & ~ins[0][..., 2, :]
-    for inp in ins[1:]: any_zero |= ~inp[..., 0, :] & ~inp[..., 1, :] & ~inp[..., 2, :]
+    for inp in ins[1:]: any_zero = any_zero | (~inp[..., 0, :] & ~inp[..., 1, :] & ~inp[..., 2, :])
     out[..., 2, :] = 0
     for inp in ins:
         out[..., 0, :] &= inp[..., 0, :] | (any_unknown & ~any_zero)
@@ -364,7 +364,7 @@ def bp8v_and(out, *ins):
 def bp4v_xor(out, *ins):
     out[...] = 0
     any_unknown = ins[0][..., 0, :] ^ ins[0][..., 1, :]
-    for inp in ins[1:]: any_unknown |= inp[..., 0, :] ^ inp[..., 1, :]
+    for inp in ins[1:]: any_unknown = any_unknown | (inp[..., 0, :] ^ inp[..., 1, :])
     for inp in ins:
         out[..., 0, :] ^= inp[..., 0, :]
         out[..., 1, :] ^= inp[..., 1, :]
@@ -376,7 +376,7 @@ def bp4v_xor(out, *ins):
 def bp8v_xor(out, *ins):
     out[...] = 0
     any_unknown = (ins[0][..., 0, :] ^ ins[0][..., 1, :]) & ~ins[0][..., 2, :]
-    for inp in ins[1:]: any_unknown |= (inp[..., 0, :] ^ inp[..., 1, :]) & ~inp[..., 2, :]
+    for inp in ins[1:]: any_unknown = any_unknown | ((inp[..., 0, :] ^ inp[..., 1, :]) & ~inp[..., 2, :])
     for inp in ins:
         out[..., 0, :] ^= inp[..., 0, :]
         out[..., 1, :] ^= inp[..., 1, :]
